@@ -40,21 +40,28 @@ impl Slot {
 
     /// Generates a numeric slot like `$42`
     pub fn numeric(u: u32) -> Slot {
+        if u > Self::MAX_INDEX {
+            // does not fit the encoding (index * 4 + kind): kept apart as an ordinary named slot
+            return Slot::named(&u.to_string());
+        }
         Slot(u * 4)
     }
+
+    // largest numeric / fresh index that the encoding `index * 4 + kind` can hold.
+    const MAX_INDEX: u32 = (u32::MAX - 3) / 4;
 
     /// Generates a named slot like `$xyz`
     pub fn named(s: &str) -> Slot {
         if let Ok(x) = s.parse::<u32>() {
             // only the canonical numeral is the numeric slot: "07" or "+7" are distinct names from "7".
-            if x.to_string() == s {
+            if x.to_string() == s && x <= Self::MAX_INDEX {
                 return Slot(x * 4); // numeric
             }
         }
 
         SLOT_TABLE.with_borrow_mut(|tab| {
             if s.starts_with("f") {
-                if let Some(x) = s[1..].parse::<u32>().ok().filter(|x| x.to_string() == s[1..]) {
+                if let Some(x) = s[1..].parse::<u32>().ok().filter(|x| x.to_string() == s[1..] && *x < Self::MAX_INDEX) {
                     let out = x * 4 + 1;
                     if tab.fresh_idx <= out {
                         tab.fresh_idx = out + 4;
